@@ -50,9 +50,22 @@ func init() {
 				apf.F.ApproveOrDenyWrite(msg, e)
 			})
 			// inbound traffic on two connections (binds, subscriptions, writes, disconnects, entity removal)
-			for _, p := range pr.Peers {
-				p := p
-				w.Go("script:"+p.Name, func() { a.run(p, 4+w.T.Choose(8, "nops")) })
+			for i, p := range pr.Peers {
+				i, p := i, p
+				w.Go("script:"+p.Name, func() {
+					p.AwaitDiscovery()
+					// mostly the first peer owns the binding on the feature with approval callbacks and
+					// has writes pending while everything else (teardown of either peer included) goes on
+					if (i == 0) == w.T.Bool(3, 4, "hot-binding-first-peer") && len(apf.Funcs) > 0 {
+						cf := a.clientFor(p, apf)
+						p.Await(p.SendBind(cf, apf.Address(), apf.Type, false, "bind:hot"))
+						for k := 1 + w.T.Choose(3, "hot-writes"); k > 0; k-- {
+							a.sendWrite(p, apf, cf, apf.Funcs[w.T.Choose(len(apf.Funcs), "fn")], "hot")
+							w.Probe("c17-hot-write")
+						}
+					}
+					a.run(p, 4+w.T.Choose(8, "nops"))
+				})
 			}
 			api1 := func(name string, f func()) {
 				w.Go(name, func() {
